@@ -84,6 +84,11 @@ class sampler:
             prop_data["e_estimate"],
             energy_samples,
         )
+        # walkers killed by the constraint carry no weight: their local energy (which
+        # may not be a number) must not enter the weighted sum as 0 * nan
+        energy_samples = jnp.where(
+            prop_data["weights"] > 0.0, energy_samples, prop_data["e_estimate"]
+        )
         block_weight = jnp.sum(prop_data["weights"])
         block_energy = jnp.sum(energy_samples * prop_data["weights"]) / block_weight
         prop_data["pop_control_ene_shift"] = (
